@@ -193,7 +193,44 @@ func nonceSource(rng *mon.Rng) (adnl.NonceSource, *sync.Mutex) {
 type collector struct {
 	mu   sync.Mutex
 	got  [][]byte
+	last *liteclient.Packet // the packet delivered last, as it came out of Responses()
 	tick chan struct{}
+}
+
+// packetModes: the ways an application can come by the Packet it hands to Connection.Send. Packet
+// is a plain struct with an exported Payload field, so besides NewPacket there are literals, packets
+// whose payload was assigned or edited after construction, and packets taken from Responses() and
+// sent on with another payload. Whatever the way, the payload the packet holds when Send is called
+// is the payload the peer must receive.
+var packetModes = []string{"NewPacket", "NewPacket", "NewPacket", "literal", "payload-assigned-after-NewPacket", "payload-edited-in-place-after-NewPacket", "received-packet-with-new-payload"}
+
+func buildPacket(rng *mon.Rng, col *collector, pl []byte) (pk liteclient.Packet, mode string, err error) {
+	mode = mon.Pick(rng, packetModes)
+	switch mode {
+	case "literal":
+		return liteclient.Packet{Payload: pl}, mode, nil
+	case "payload-assigned-after-NewPacket":
+		pk, err = liteclient.NewPacket(rng.Bytes(rng.Intn(80)))
+		pk.Payload = pl
+		return pk, mode, err
+	case "payload-edited-in-place-after-NewPacket":
+		buf := rng.Bytes(len(pl))
+		pk, err = liteclient.NewPacket(buf)
+		copy(buf, pl)
+		return pk, mode, err
+	case "received-packet-with-new-payload":
+		col.mu.Lock()
+		last := col.last
+		col.mu.Unlock()
+		if last != nil {
+			pk = *last
+			pk.Payload = pl
+			return pk, mode, nil
+		}
+		mode = "NewPacket" // nothing received yet
+	}
+	pk, err = liteclient.NewPacket(pl)
+	return pk, mode, err
 }
 
 func collect(conn *liteclient.Connection) *collector {
@@ -202,6 +239,8 @@ func collect(conn *liteclient.Connection) *collector {
 		for p := range conn.Responses() {
 			c.mu.Lock()
 			c.got = append(c.got, p.Payload)
+			pc := p
+			c.last = &pc
 			c.mu.Unlock()
 			select {
 			case c.tick <- struct{}{}:
@@ -528,24 +567,28 @@ func cleanCase(w *mon.Worker, idx int, o cleanOpts) {
 	col := collect(conn)
 	var sendErr error
 	var sendPanic *mon.Panic
+	var sentModes []string // how the i-th client packet was built (read after sendDone)
 	sendDone := make(chan struct{})
 	go func() {
 		defer close(sendDone)
+		prng := rng.Fork("packet-construction", 0)
 		for i, pl := range c2s {
 			var e error
+			var mode string
 			pn := mon.Guard(func() {
 				var pk liteclient.Packet
-				pk, e = liteclient.NewPacket(pl)
+				pk, mode, e = buildPacket(prng, col, pl)
 				if e == nil {
 					e = conn.Send(pk)
 				}
 			})
+			sentModes = append(sentModes, mode)
 			if pn != nil {
 				sendPanic = pn
 				return
 			}
 			if e != nil {
-				sendErr = fmt.Errorf("Send #%d (%d bytes): %w", i, len(pl), e)
+				sendErr = fmt.Errorf("Send #%d (%d bytes, packet built as %s): %w", i, len(pl), mode, e)
 				return
 			}
 		}
@@ -591,12 +634,19 @@ func cleanCase(w *mon.Worker, idx int, o cleanOpts) {
 	}
 	if rerr != nil && rerr != io.EOF && len(recv) < len(c2s) {
 		wit["reference_error"], wit["stream_span"], wit["frames_before"] = rerr.Error(), []int64{rspan.Start, rspan.End}, len(recv)
+		if len(recv) < len(sentModes) {
+			wit["rejected_packet_built_as"], wit["rejected_packet_payload_bytes"] = sentModes[len(recv)], len(c2s[len(recv)])
+		}
 		w.Violation("client-frame-rejected-by-reference/"+frameErrClass(rerr), wit)
 		return
 	}
 	for i := 0; i < len(recv) && i < len(c2s); i++ {
 		w.Eval(fmt.Sprintf("c2s/%d/%x", len(c2s[i]), head(c2s[i])))
 		w.Seen("sizes_c2s", sizeClass(len(c2s[i])))
+		if i < len(sentModes) {
+			w.Seen("client_packets_built_as", sentModes[i])
+			wit["packet_built_as"] = sentModes[i]
+		}
 		if !bytes.Equal(recv[i], c2s[i]) {
 			wit["index"], wit["sent_len"], wit["got_len"], wit["first_diff"] = i, len(c2s[i]), len(recv[i]), firstDiff(recv[i], c2s[i])
 			wit["sent"], wit["got"] = mon.HexTrunc(c2s[i], 96), mon.HexTrunc(recv[i], 96)
@@ -1849,7 +1899,7 @@ func main() {
 	}
 	R := mon.Start("C11", tier)
 	R.Level = "fault_enumeration"
-	R.Rule = "clean runs: tongo's NewConnection/Send/Responses against the stdlib reference peer through a re-segmenting proxy; the reference must accept the handshake and every client frame, and the payload sequences must be equal in both directions (one evaluation per compared packet, distinct = distinct (direction, payload)); " +
+	R.Rule = "clean runs: tongo's NewConnection/Send/Responses against the stdlib reference peer through a re-segmenting proxy (client packets come from NewPacket, from Packet literals, with a payload assigned or edited after NewPacket, or are packets taken from Responses() and sent on with another payload: the payload held at the moment of Send is what must arrive); the reference must accept the handshake and every client frame, and the payload sequences must be equal in both directions (one evaluation per compared packet, distinct = distinct (direction, payload)); " +
 		"faulty runs: exactly one fault (bit flip, byte substitution, truncation, duplication, deletion) at a chosen offset of the server->client stream (handshake confirmation, or length/nonce/payload/checksum of the k-th frame) or of the client's handshake; the sequence delivered on Responses() must be exactly the frames before the first touched one, each equal to what was sent (one evaluation per faulty run, distinct = distinct (kind, region, frame, offset)); " +
 		"ParsePacket: streams of three reference-encrypted frames with every single-bit flip, one substitution per byte, every truncation, and awkward readers (one evaluation per mutated stream); " +
 		"large frames: one faulty run in twelve aims its fault at a frame of 100 KiB..8 MiB-64, and ParsePacket streams holding frames above 64 KiB and above 1 MiB get sampled bit flips in every region; " +
